@@ -26,6 +26,12 @@ def render (tail : String) (s : Saver) : String :=
   let t := s.dumped.getD []
   s!"sst={",".intercalate (t.map String.ofList)};idx={",".intercalate (s.got.map toString)}{tail}"
 
+/-- mode `lazymixed`, saver 0: every sheet of its copy is deserialized, so its save starts from an empty table
+    and registers the `k` strings of sheet 1 and then the two strings of sheet 2 (`r`, `x`) -/
+def renderFull (k : Nat) (s : Saver) : String :=
+  let t := s.dumped.getD []
+  s!"sst={",".intercalate (t.map String.ofList)};idx={",".intercalate ((s.got.take k).map toString)}|{",".intercalate ((s.got.drop k).map toString)}"
+
 def handle (args : List String) : String :=
   match args with
   | "run" :: mode :: sched :: ps =>
@@ -33,6 +39,18 @@ def handle (args : List String) : String :=
     let progs := ps.map parseProg
     let σ := sched.toList.filterMap (fun c => if c.isDigit then some (c.toNat - 48) else none)
     let loaded : Table := if lazy then lazyLoaded else []
+    if mode = "lazymixed" then
+      match progs with
+      | [] => "bad-op"
+      | p0 :: rest =>
+        let p0' := p0 ++ [['r'], ['x']]
+        let progs' := p0' :: rest
+        let savers : List Saver := ({ todo := p0', table := [] } : Saver) :: rest.map (fun p => ({ todo := p, table := loaded } : Saver))
+        let final := runSched savers (modelSchedule true progs' σ)
+        match final with
+        | [] => "bad-op"
+        | s0 :: ss => " # ".intercalate (renderFull p0.length s0 :: ss.map (render lazyRawIdx))
+    else
     let final := runSched (progs.map (fun p => ({ todo := p, table := loaded } : Saver))) (modelSchedule lazy progs σ)
     " # ".intercalate (final.map (render (if lazy then lazyRawIdx else "")))
   -- free-running OS threads (no scheduler): by `C16_any_schedule` every schedule gives each saver the
